@@ -101,6 +101,8 @@ def generate(rng, tier) -> dict:
         ops.append({"gulp": max(1, rng.choice([1, 2, 3, rng.randint(1, max(1, ns)), ns, ns + rng.randint(1, 4), max(1, ns // 2), max(1, ns // 3)]))})
     if rng.random() < 0.1:
         ops[rng.randrange(len(ops))]["gulp"] = None  # gulp left at its default
+    if rng.random() < 0.08:
+        ops[0]["reentrant"] = True  # the allocator callback of this call runs the same transform on another reader
     if len(ops) == 2 and rng.random() < 0.3 and N >= 2:
         st2 = rng.randint(0, N - 1)
         ops[1].update({"start": st2, "nsamps": rng.randint(1, N - st2)})
@@ -349,17 +351,33 @@ def execute(sc, ctx) -> None:
                     ctx.probe("multi-batch-extract")
             if name == "extract_chans" and nbits == 8:
                 ctx.probe("extract_chans:8bit-to-32bit-tim")
-            sim.begin_op(i, budget=16 * (nblk + 2) * (len(spec["nsamps"]) + 2) * max(1, len(exps)) + 64 + (2000 if name == "remove_zerodm" else 0))
+            sim.begin_op(i, budget=(3 if op.get("reentrant") else 1) * (16 * (nblk + 2) * (len(spec["nsamps"]) + 2) * max(1, len(exps)) + 64) + (2000 if name == "remove_zerodm" else 0) + 4 * ns)
             sim.free_space()
             fired0 = sum(ctx.faults.values())
             info = {"api": name, "params": params, "gulp": gulp, "start": start, "nsamps": ns, "N": N, "nbits": nbits,
                     "nchans": nchans, "eof": eof, "nfiles": len(spec["nsamps"]), "nblocks": nblk, "op_index": i, "pre": sc.get("pre", [])}
             raised = None
             outs = None
+            alloc = None
+            inner = {}
+            if op.get("reentrant") and not sc["faults"]:
+                def alloc(n, _inner=inner, _i=i):
+                    # a callback the caller owns, in the middle of the call: the same transform on the same
+                    # window through ANOTHER reader into another directory, to completion
+                    if "outs" not in _inner:
+                        _inner["outs"] = None
+                        d2 = os.path.join(ctx.root, f"inner{_i}")
+                        os.makedirs(d2, exist_ok=True)
+                        rb = open_reader("C07", fs.paths)
+                        _inner["outs"] = T.call(name, rb, d2, params, max(1, ns // 2), start, nsamps)
+                        rb._file.close()
+                    return bytearray(n)
+
+                ctx.probe("reentrant-call-inside-allocator")
             try:
                 outdir = os.path.join(ctx.root, f"out{i}")
                 os.makedirs(outdir, exist_ok=True)
-                outs = T.call(name, reader, outdir, params, gulp, start, nsamps)
+                outs = T.call(name, reader, outdir, params, gulp, start, nsamps, allocator=alloc)
             except SimLivelock as e:
                 raise Violation(f"C07/{name}/livelock/{eof}", str(e), info) from None
             except Violation:
@@ -388,6 +406,9 @@ def execute(sc, ctx) -> None:
                 raise mk("output-count", f"{len(outs)} files reported, definition has {need}..{len(exps)}")
             if len(set(outs)) != len(outs):
                 raise mk("output-names-collide", str([ctx.rel(o) for o in outs]))
+            if inner.get("outs"):
+                for path, exp in zip(inner["outs"], exps):
+                    compare_output(path, exp, ns_out, lambda c, d: mk("inner-call-" + c, d), ctx)
             these = []
             for path, exp in zip(outs, exps):
                 these.append(compare_output(path, exp, ns_out, mk, ctx))
